@@ -77,6 +77,21 @@ Theorem C04_listed_order_refuted_when_collected_in_declaration_order :
 Proof. exact refuted_declaration_order. Qed.
 Print Assumptions C04_listed_order_refuted_when_collected_in_declaration_order.
 
+(* THE ANSWER AS THE TOKEN READS IT: the gateway hands a token its decision in a slice that the token reads when it gets
+   to run. With a slice of its own for every decision (the variant the sources show, src_answer_slice_is_fresh) a token
+   reads what was decided for it last, whatever was decided for other tokens in between ... *)
+Theorem C04_a_token_reads_its_own_decision : forall pre t d,
+  decided pre t None = Some d -> In (t, d) (seen_ (arun src_answer_slice_is_fresh (pre ++ [ARead t]))).
+Proof. intros pre t d H. exact (reads_own_decision _ pre t d eq_refl H). Qed.
+Print Assumptions C04_a_token_reads_its_own_decision.
+(* ... with one slice that is emptied and filled again: token 1 is told flow 0, token 2 is told flow 1 before token 1
+   reads -- token 1 leaves on flow 1 *)
+Theorem C04_own_decision_refuted_with_a_shared_slice :
+  seen_ (arun false [ADecide 1 0; ADecide 2 1; ARead 1; ARead 2]) = [(2, 1); (1, 1)] /\
+  seen_ (arun true [ADecide 1 0; ADecide 2 1; ARead 1; ARead 2]) = [(2, 1); (1, 0)].
+Proof. exact refuted_shared_answer_slice. Qed.
+Print Assumptions C04_own_decision_refuted_with_a_shared_slice.
+
 Example C04_nonvacuous :
   xor_choose [false; true; true; true] (Some 1) = Flow 2 /\
   xor_choose [false; true; false] (Some 1) = Flow 1 /\
